@@ -79,6 +79,8 @@ pub fn run_space(ctx: &mut Ctx) {
         "C14" => c14::run(ctx),
         "C15" => c15::run(ctx),
         "C16" => c16::run(ctx),
+        "C18" => crate::boundary::c18(ctx),
+        "C19" => crate::boundary::python(ctx, "c19"),
         p => panic!("no space for {}", p),
     }
 }
@@ -118,6 +120,9 @@ pub fn meta(prop: &str, thorough: bool) -> Meta {
 }
 
 /// Replay of records that are not plain (rule, data) cases. None = use the generic replay.
-pub fn replay_special(_prop: &str, _rec: &Value) -> Option<i32> {
+pub fn replay_special(_prop: &str, rec: &Value) -> Option<i32> {
+    if rec["case"].get("argv").is_some() {
+        return Some(crate::boundary::replay_cli(rec));
+    }
     None
 }
